@@ -458,17 +458,40 @@ fn parse_logical_and<'a>(input: &mut &'a BStr) -> winnow::Result<Expression<'a>>
     Ok(left)
 }
 
-/// Parse comparison expression: expression < expression, expression == expression, etc.
+/// Parse equality expression: expression == expression, expression != expression. Binds looser
+/// than the relational operators and is left-associative, as in C and GNU ld.
 fn parse_comparison<'a>(input: &mut &'a BStr) -> winnow::Result<Expression<'a>> {
+    let mut left = parse_relational.parse_next(input)?;
+
+    multispace0.parse_next(input)?;
+
+    while let Some(op) = opt(alt((
+        "==".map(|_| CompOp::Equal),
+        "!=".map(|_| CompOp::NotEqual),
+    )))
+    .parse_next(input)?
+    {
+        multispace0.parse_next(input)?;
+        let right = parse_relational.parse_next(input)?;
+        left = match op {
+            CompOp::Equal => Expression::Equal(Box::new(left), Box::new(right)),
+            _ => Expression::NotEqual(Box::new(left), Box::new(right)),
+        };
+        multispace0.parse_next(input)?;
+    }
+
+    Ok(left)
+}
+
+/// Parse relational expression: expression < expression, expression >= expression, etc.
+fn parse_relational<'a>(input: &mut &'a BStr) -> winnow::Result<Expression<'a>> {
     let mut left = parse_bitwise_or.parse_next(input)?;
 
     multispace0.parse_next(input)?;
 
-    if let Some(op) = opt(alt((
+    while let Some(op) = opt(alt((
         "<=".map(|_| CompOp::LessEqual),
         ">=".map(|_| CompOp::GreaterEqual),
-        "==".map(|_| CompOp::Equal),
-        "!=".map(|_| CompOp::NotEqual),
         '<'.map(|_| CompOp::LessThan),
         '>'.map(|_| CompOp::GreaterThan),
     )))
@@ -480,9 +503,7 @@ fn parse_comparison<'a>(input: &mut &'a BStr) -> winnow::Result<Expression<'a>> 
             CompOp::LessThan => Expression::LessThan(Box::new(left), Box::new(right)),
             CompOp::GreaterThan => Expression::GreaterThan(Box::new(left), Box::new(right)),
             CompOp::LessEqual => Expression::LessEqual(Box::new(left), Box::new(right)),
-            CompOp::GreaterEqual => Expression::GreaterEqual(Box::new(left), Box::new(right)),
-            CompOp::Equal => Expression::Equal(Box::new(left), Box::new(right)),
-            CompOp::NotEqual => Expression::NotEqual(Box::new(left), Box::new(right)),
+            _ => Expression::GreaterEqual(Box::new(left), Box::new(right)),
         };
         multispace0.parse_next(input)?;
     }
